@@ -76,6 +76,9 @@ CHECKS = {
     "C34": C("c34", dict(checks=5000, shards=2, timeout=300), dict(checks=50000, shards=16, timeout=3000),
              "property-based testing (rapid): differential against two recursive reference implementations plus validity predicates (first/last kept, subsequence)",
              "Trusted: the two recursive references (the repository's own via hook VerifReferenceDouglasPeuckerSimplify, and one in the harness using the same tie and split conventions). Finite coordinates, non-negative tolerance, at least 2 points."),
+    "C36": C("c36", dict(checks=20, shards=4, timeout=900), dict(checks=300, shards=16, timeout=6000),
+             "property-based testing (rapid): differential between builds of the same generated source with 1 and with 2-16 goroutines, over the canonical observation of every read query",
+             "Trusted: Observe. Schedules are whatever the Go scheduler produces with the given goroutine counts, plus generated feed orders for feature sources; a divergence that needs a particular interleaving can be missed."),
     "C37": C("c37", dict(checks=250, shards=4, timeout=900), dict(checks=4000, shards=16, timeout=6000),
              "property-based testing (rapid): generated sources and edit histories containing invalid features; oracle: independent validity predicate over every feature enumerated from the resulting world",
              "Trusted: the validity rules written in harness/c37 (transcribed from the property statement) and s2's loop validation."),
